@@ -13,6 +13,7 @@ from ..explore import get_mm
 from ..img_py import resolve, expected_annotation, same_type, Unmappable, py_type
 from ..mm import MM, camel_of_attr, snake, admits_null, ANY_ALIASES, INT_MIN, INT_MAX
 from ..runner import Result, Violation
+from .c11 import literal_neighbours
 
 PROP = "C04"
 
@@ -96,7 +97,7 @@ def bisim(mm: MM, lsp, types_py_path=None):
             if t["kind"] == "base" and t["name"] in VERDICTS or t["kind"] == "stringLiteral":
                 stats["facets"] += 1
                 if t["kind"] == "stringLiteral":
-                    acc, rej = [t["value"]], [t["value"] + "x", ""]
+                    acc, rej = [t["value"]], literal_neighbours(t["value"])
                 else:
                     acc, rej = VERDICTS[t["name"]]
                 opt = bool(p.get("optional"))
@@ -223,6 +224,56 @@ def bisim(mm: MM, lsp, types_py_path=None):
 expected_classes_and = set()
 
 
+def second_generation_in_one_process():
+    """History: the python plugin generates for the committed model and then, in the same interpreter, for an
+    evolved model B; the product walk is repeated (fresh interpreter, evolved package) on the second output."""
+    import copy
+    import json
+    import logging
+    import shutil
+    import subprocess
+    from .. import docs
+    from ..genrun import scratch, rm, PY
+    from ..runner import VERIF
+    from .c16 import evolve_for_history
+    work = scratch("lspverif-c04b-")
+    logging.disable(logging.CRITICAL)
+    try:
+        model = impl.generator_module("generator.model")
+        plugin = impl.generator_module("generator.plugins.python")
+        a = docs.committed()
+        b = evolve_for_history(a)
+        for i, d in enumerate((a, b)):
+            o, t = os.path.join(work, "o%d" % i), os.path.join(work, "t%d" % i)
+            os.makedirs(o), os.makedirs(t)
+            plugin.generate(model.create_lsp_model([copy.deepcopy(d)]), o, t)
+        pkg = os.path.join(work, "pkg", "lsprotocol")
+        os.makedirs(pkg)
+        src_pkg = os.path.join(impl.REPO, "packages", "python", "lsprotocol")
+        for f in os.listdir(src_pkg):
+            if f.endswith(".py") and f != "types.py" or f == "py.typed":
+                shutil.copy(os.path.join(src_pkg, f), os.path.join(pkg, f))
+        shutil.copy(os.path.join(work, "o1", "lsprotocol", "types.py"), os.path.join(pkg, "types.py"))
+        mp_ = docs.write(b, os.path.join(work, "model.json"))
+        bp = docs.write(a, os.path.join(work, "base.json"))
+        env = dict(os.environ)
+        env.update({"LSPVERIF_PYPKG": os.path.join(work, "pkg"), "LSPVERIF_MODEL": mp_, "PYTHONPATH": VERIF, "PYTHONHASHSEED": "0",
+                    "PYTHONDONTWRITEBYTECODE": "1"})
+        outp = os.path.join(work, "state.json")
+        pr = subprocess.run([PY, "-m", "lspverif.evo_state", bp, "-", outp, "2", "bisim"], cwd=VERIF, env=env, capture_output=True, text=True, timeout=600)
+        if pr.returncode != 0 or not os.path.exists(outp):
+            return None, "evaluation subprocess failed: %s" % (pr.stderr or pr.stdout)[-300:]
+        st = json.load(open(outp))
+        if st["import_error"]:
+            return None, "types.py of the second generation does not import: %s" % st["import_error"]
+        return st, None
+    except Exception as e:  # noqa: BLE001
+        return None, "python plugin fails on the second (evolved) model in one process: %s: %s" % (type(e).__name__, str(e)[:200])
+    finally:
+        logging.disable(logging.NOTSET)
+        rm(work)
+
+
 def run(ctx):
     mm = get_mm()
     lsp = impl.lsp()
@@ -231,14 +282,27 @@ def run(ctx):
     expected_classes_and.clear()
     vs, stats = bisim(mm, lsp, os.path.join(impl.PY_PKG, "lsprotocol", "types.py"))
     res.merge_violations(vs)
+    st2, err2 = second_generation_in_one_process()
+    if err2:
+        res.add(Violation(PROP, "plugin", "python:second-run", err2, {"engine": "BISIM", "input": None}))
+    else:
+        for v in st2["violations"]:
+            if v["checker"] != PROP:
+                continue
+            parts = v["sig"].split(":", 2)
+            res.add(Violation(PROP, parts[1], parts[2] if len(parts) > 2 else "?", "second generation in the same process, evolved model: " + v["what"],
+                              {"engine": "BISIM", "history": "committed model, then evolved model B, one interpreter", "input": None}, extra="second-run"))
+        stats["second_run_facets"] = st2["stats"].get("c04_facets", 0)
     n_states = stats["declarations"] + stats["attributes"]
     res.coverage = {
-        "states": n_states, "transitions": stats["facets"] + stats["validator_probes"],
+        "states": n_states, "transitions": stats["facets"] + stats["validator_probes"] + stats.get("second_run_facets", 0),
         "traces_validated_against_impl": stats["facets"] + stats["validator_probes"],
         "evaluations": stats["facets"] + stats["validator_probes"], "distinct_nontrivial": stats["attributes"],
         "rule": "product walk metamodel x imported package: every structure/enum/alias/and-type (declaration states) and every flattened property "
                 "(attribute states) x facets {attribute name, required-ness, annotation as typing object, literal default, validator verdict table}; "
-                "reverse walk over every class/enum defined in lsprotocol.types; duplicate top-level definitions in the text of types.py",
+                "reverse walk over every class/enum defined in lsprotocol.types; duplicate top-level definitions in the text of types.py; "
+                "history: the python plugin generates in ONE interpreter for the committed model and then for the evolved model B "
+                "(c16.evolve_for_history) and the same product walk is repeated on the second output",
         **stats, "exhaustive": True,
         "samples": [{"class": "Position", "attributes": [(a.name, str(a.type)) for a in attrs.fields(lsp.Position)]}],
     }
